@@ -761,6 +761,98 @@ def magnet_numeric():
     return out
 
 
+# ----------------------------------------------------------------------- the authority dimension (round 5)
+# `//userinfo@host:port` of the magnet URI itself and of every URL-valued parameter.  urlparse() splits it eagerly (an
+# unbalanced bracket raises ValueError there) but validates host and port LAZILY: `.port` raises ValueError for anything that
+# is not a decimal number in 0..65535, `.hostname` lower-cases / strips brackets and the zone.
+AUTH_USERINFO = ['', 'user@', 'user:pw@', '@', ':@', 'a@b@', 'user:p:w@', '%40@', 'us er@']
+AUTH_HOST = ['', 'host', 'Host.Example.ORG', '1.2.3.4', '999.1.1.1', '[::1]', '[fe80::1%25eth0]', '[fe80::1%eth0]', '[v1.x]', '[::1',
+             '::1]', '[]', '[zz]', '[::1]x', 'h[o]st', 'xn--nxasmq6b', 'b\xfccher.example', '\uff41.b', 'a..b', '.', 'h%20st', 'h st',
+             '-', 'a' * 300]
+AUTH_PORT = ['', ':', ':80', ':0', ':00080', ':65535', ':65536', ':99999', ':-1', ':+80', ':x', ':80x', ':6881x', ':8 0', ': 80',
+             ':80 ', ':\u0668\u0660', ':\uff18\uff10', ':\xb2', ':1_0', ':0x50', ':1e3', ':80:81', '::', ':' + '9' * 20, ':' + '9' * 4301,
+             ':' + '0' * 4301, ':%38%30', ':\t80', ':80\n']
+AUTH_TAIL = ['?xt=', '/?xt=', '/path?xt=', '/?dn=x&xt=', ';p?xt=', '#?xt=', '/a/../?xt=', '//?xt=']
+
+
+AUTH_USERINFO_Q = ['', 'user@', 'user:pw@', '@', 'a@b@']
+AUTH_HOST_Q = ['', 'host', '1.2.3.4', '[::1]', '[fe80::1%25eth0]', '[::1', '::1]', '[zz]', 'b\xfccher.example', 'a..b', 'h st', 'a' * 300]
+AUTH_PORT_Q = ['', ':', ':80', ':0', ':65535', ':65536', ':99999', ':-1', ':x', ':6881x', ': 80', ':\u0668\u0660', ':\xb2', ':80:81',
+               ':' + '9' * 20, ':' + '9' * 4301]
+
+
+def authorities(quick=False):
+    if quick:
+        return [u + h + p for u in AUTH_USERINFO_Q for h in AUTH_HOST_Q for p in AUTH_PORT_Q]
+    return [u + h + p for u in AUTH_USERINFO for h in AUTH_HOST for p in AUTH_PORT]
+
+
+def magnet_authority(full=False):
+    """the authority grid (9 userinfo x 24 hosts x 30 ports = 6480; quick: 5 x 12 x 16 = 960) as authority of the magnet URI (8 placements of path / query)
+    and of the URL in tr / ws / xs / as; quick: one placement and one parameter per authority, in rotation"""
+    out = []
+    base = 'magnet:?xt=urn:btih:' + H40
+    for i, a in enumerate(authorities(quick=not full)):
+        for ti, tail in enumerate(AUTH_TAIL):
+            if full or ti == i % len(AUTH_TAIL):
+                out.append(dict(kind='magnet/authority-uri', uri='magnet://' + a + tail + H40))
+        if i % 7 == 0:
+            out.append(dict(kind='magnet/authority-uri', uri='magnet://' + a))                      # no query at all
+            out.append(dict(kind='magnet/authority-uri', uri='MAGNET://' + a + '?xt=' + H40))
+            out.append(dict(kind='magnet/authority-uri', uri='//' + a + '?xt=' + H40))              # scheme from the default
+        for pi, p in enumerate(('tr', 'ws', 'xs', 'as')):
+            if full or pi == i % 4:
+                u = ('http', 'udp', 'https', 'ftp')[(i // 4) % 4] + '://' + a + ('/announce', '', '/?x=1', ':')[(i // 16) % 4]
+                out.append(dict(kind='magnet/authority-' + p, uri=base + '&' + p + '=' + (q(u) if i % 3 else u.replace('&', '%26').replace('#', '%23'))))
+    return out
+
+
+def _authority_span(s, start):
+    """(begin, end) of the authority that starts after '//' at `start`"""
+    j = len(s)
+    for ch in '/?#':
+        k = s.find(ch, start)
+        if k != -1:
+            j = min(j, k)
+    return start, j
+
+
+def authority_sweep(uri):
+    """the whole authority grid in the place of the authority of the URI and of every URL-valued parameter (percent-decoded
+    and re-encoded); when the URI has no authority, one is put after the scheme"""
+    out, seen = [], set()
+
+    def add(u):
+        if u not in seen:
+            seen.add(u)
+            out.append(dict(kind='magnet/sweep-authority', uri=u))
+
+    auths = authorities()
+    head, sep, query = uri.partition('?')
+    st = uri.strip()
+    i = st.find('//')
+    if 0 <= i <= st.find(':') + 1 and (st.find('?') == -1 or i < st.find('?')):
+        b, e = _authority_span(st, i + 2)
+        for a in auths:
+            add(st[:b] + a + st[e:])
+    elif ':' in head:
+        k = st.find(':') + 1
+        for a in auths:
+            add(st[:k] + '//' + a + ('' if st[k:k + 1] in ('?', '/', '#', '') else '/') + st[k:])
+    fields = query.split('&') if sep else []
+    for fi, f in enumerate(fields):
+        k, eq, v = f.partition('=')
+        if k in ('tr', 'ws', 'xs', 'as') and eq:
+            u = urllib.parse.unquote(v.replace('+', ' '))
+            j = u.find('//')
+            if j == -1:
+                continue
+            b, e = _authority_span(u, j + 2)
+            for a in auths[::3]:
+                add(head + '?' + '&'.join(fields[:fi] + [k + '=' + q(u[:b] + a + u[e:])] + fields[fi + 1:]))
+    return out
+
+
 def magnet_sweep(uri):
     """search after a correspondence break on `uri`: its parameters alone, in pairs, dropped, doubled, reordered, and every
     value replaced by the values of its class (topics, numeric strings, URLs)"""
